@@ -338,6 +338,12 @@ def m_isinstance(x, cls):
         if np.ndarray in tys:
             return True
         return builtins.isinstance(x, cls)
+    stands_for = getattr(type(x), "__nss_stands_for__", None)
+    if stands_for:
+        # a contract stub that stands for instances of a real class (by qualified name): isinstance() sees the real class
+        tys = cls if isinstance(cls, tuple) else (cls,)
+        if any(getattr(c, "__module__", "") + "." + getattr(c, "__qualname__", "") in stands_for for c in tys if builtins.isinstance(c, type)):
+            return True
     return builtins.isinstance(x, cls)
 
 
